@@ -33,6 +33,7 @@ var pool = []def{
 	{"QQ", `\"\"`, true, false}, {"QAQ", `\"a\"`, true, false}, {"BSBS", `\\\\`, true, false}, {"BSQ", `\\\"x`, true, false},
 	{"LOW", `[a-z]+`, false, false}, {"IX", `i[a-z]`, false, false}, {"IFIN", `if|in`, false, false}, {"EQS", `=+`, false, false},
 	{"INT", `[0-9]+`, false, false}, {"NUM", `[0-9]+(\.[0-9]+)?`, false, false}, {"QUOTE", `"`, false, false}, {"AQ", `a"b?`, false, false}, {"QSTR", `"[a-z]*"`, false, false},
+	{"AB", `ab`, true, false}, {"ABC", `ab|c`, false, false}, {"ABD", `ab|d`, false, false}, {"ABE", `ab|ee`, false, false},
 	{"ID", `$ID`, false, true}, {"NUMBER", `$NUMBER`, false, true}, {"STRING", `$STRING`, false, true}, {"WS", `$WS`, false, true}, {"COMMENT", `$COMMENT`, false, true},
 }
 
